@@ -141,6 +141,18 @@ def run_case(kind, p):
             if np.abs(ci - wi).max(initial=0) > 1e-9:
                 msgs.append(f"calc_coords with integer lattice vectors {az}, {bz} and fractional indices != zero + i*a + j*b")
                 break
+    # call history: the same points against a lattice strained / rotated by parts per million right after the call above
+    # (frame after frame of a slowly varying lattice): each call answers for the lattice it is given
+    if len(flat):
+        for eps_ in (1e-6, -3e-6, 2e-7):
+            a2, b2 = a * (1 + eps_), b * (1 - 0.5 * eps_) + eps_ * np.array([-b[1], b[0]])
+            c2 = utils.calc_coords(zero, a2, b2, flat)
+            back2 = grm.get_indices(c2, zero, a2, b2)
+            if np.abs(back2 - flat).max(initial=0) > 1e-9 * max(1.0, np.abs(flat).max()):
+                msgs.append(f"get_indices(calc_coords(idx)) for a lattice {eps_:+.0e} away from the one of the previous call "
+                            f"differs from idx by {np.abs(back2 - flat).max():.3g}")
+                break
+        grm.get_indices(coords, zero, a, b)
     pts = coords + 0.37
     again = utils.calc_coords(zero, a, b, grm.get_indices(pts, zero, a, b))
     if np.abs(again - pts).max(initial=0) > 1e-6:
